@@ -189,6 +189,7 @@ func (e *Engine) installStubs() {
 		t.Input = true
 		return t
 	}
+	S["verif:verifF64Bits"] = func(e *Engine, st *State, c *callInfo, a []Value) Value { return a[0] }
 	S["verif:verifSymbolic"] = func(e *Engine, st *State, c *callInfo, a []Value) Value { return True() }
 	S["verif:verifNote"] = func(e *Engine, st *State, c *callInfo, a []Value) Value {
 		e.noteAssumption(mustConcreteStr(a[0], "verifNote"))
